@@ -107,6 +107,26 @@ PROBES.update({
  'index_assignment_targets': "class A:\n    d = {}\n    d['k'] = 1\n    def __init__(self):\n        self.m = {}\n        self.m['a'] = 1\n        self.lst = [1]\n        self.lst[0] = 2\n        self.o = A\n        self.o.x = 3\n",
 })
 
+# wave 16: more everyday declaration and docstring forms tried by hand (all complete on the current tree)
+PROBES.update({
+ 'dataclass_fields': "from dataclasses import dataclass, field, InitVar\nfrom typing import ClassVar\n\n@dataclass(frozen=True, order=True)\nclass P:\n    x: int\n    y: list[int] = field(default_factory=list)\n    z: InitVar[int] = 0\n    count: ClassVar[int] = 0\n    _hidden: str = field(default='h', repr=False)\n\n    def __post_init__(self, z: int) -> None:\n        pass\n",
+ 'chained_assign': "a = b = 1\n\nclass A:\n    x = y = 2\n    key = lambda self: 1\n    def __init__(self) -> None:\n        self.p = self.q = 3\n        self.r: int = 4\n        self.r += 1\n        del self.r\n        for self.i in range(2):\n            pass\n        with open('f') as self.fh:\n            pass\n",
+ 'decorator_zoo': "import functools\nimport contextlib\nfrom abc import ABC, abstractmethod\nfrom typing import final\n\ndef route(path: str):\n    def deco(f):\n        return f\n    return deco\n\n@route('/x')\ndef handler(a: int) -> int:\n    return a\n\n@contextlib.contextmanager\ndef ctx(n: int):\n    yield n\n\nclass A(ABC):\n    @functools.cached_property\n    def cp(self) -> int:\n        return 1\n\n    @property\n    @abstractmethod\n    def ap(self) -> int: ...\n\n    @final\n    def fin(self) -> None: ...\n\n    @classmethod\n    @functools.lru_cache\n    def cm(cls, a: int = 1) -> int:\n        return a\n\n    @staticmethod\n    @route('/s')\n    def sm(a: int) -> int:\n        return a\n\n    @functools.singledispatchmethod\n    def sd(self, x) -> str:\n        return ''\n",
+ 'dunder_methods': "class V:\n    def __init__(self, x: float = 0.0) -> None:\n        self.x = x\n    def __call__(self, *a: int, **k: str) -> 'V':\n        return self\n    def __getitem__(self, i: int | slice) -> float:\n        return self.x\n    def __add__(self, o: 'V') -> 'V':\n        return self\n    def __iter__(self):\n        yield self.x\n    def __len__(self) -> int:\n        return 1\n    def __enter__(self):\n        return self\n    def __exit__(self, *exc) -> None:\n        pass\n    def __repr__(self) -> str:\n        return ''\n    __radd__ = __add__\n",
+ 'typing_zoo': "from typing import Annotated, Any, Awaitable, Callable, Concatenate, Literal, LiteralString, Never, ParamSpec, Self, Type, TypeGuard, TypeVar, NoReturn, ClassVar, Iterable, Mapping, Sequence\nimport enum\n\nP = ParamSpec('P')\nR = TypeVar('R')\n\nclass E(enum.Enum):\n    A = 1\n\ndef deco(f: Callable[P, R]) -> Callable[P, Awaitable[R]]: ...\ndef conc(f: Callable[Concatenate[int, P], R]) -> Callable[P, R]: ...\ndef ann(x: Annotated[int, 'meta'], y: Literal[E.A], z: LiteralString = '') -> TypeGuard[int]: ...\ndef nev() -> Never: ...\ndef nor() -> NoReturn: ...\ndef ty(a: type[int], b: Type[str], c: tuple[()], d: tuple[int, ...], e: Callable[[], Callable[[int], str]] | None = None) -> Any: ...\ndef coll(a: Iterable[int], b: Mapping[str, Sequence[float]]) -> None: ...\nclass S:\n    def me(self) -> Self:\n        return self\n    @classmethod\n    def make(cls) -> Self:\n        return cls()\n",
+ 'pep695': 'type IntList = list[int]\ntype Pair[T] = tuple[T, T]\n\ndef first[T](xs: list[T]) -> T:\n    return xs[0]\n\nclass Box[T: int, *Ts, **P]:\n    def get(self) -> T: ...\n\ndef use(a: IntList, b: Pair[str]) -> None: ...\n',
+ 'typeddict_required': 'from typing import TypedDict, Required, NotRequired, Unpack\n\nclass Opts(TypedDict, total=False):\n    a: Required[int]\n    b: NotRequired[str]\n\ndef f(**kw: Unpack[Opts]) -> Opts: ...\n',
+ 'main_guard_and_relative': "from . import other\nfrom .other import g as gee, K\nimport mypkg.other\nfrom mypkg import other as oth\n\ndef f() -> int:\n    return gee() + oth.g()\n\nif __name__ == '__main__':\n    def only_main() -> None: ...\n    print(f())\n",
+ 'default_value_zoo': 'import enum\nimport math\n\nclass C(enum.Enum):\n    R = 1\n\nSENTINEL = object()\n\ndef f(a=-1, b=+2, c=1j, d=10**30, e=float(\'inf\'), g=-math.inf, h=C.R, i=(1, \'a\', None), j={\'k\': [1]}, k=\'quo"te\\n\\ttab\', l=\'ünï\', m=b\'\\x00\', n=..., o=SENTINEL, p=1_000, q=0x1F, r=1e-9, s=None, t=True, u=[], v=(), w={}, x=set(), y=frozenset({1}), z=lambda x: x) -> None: ...\n',
+ 'numpydoc_sections': 'def f(a, b=1):\n    """Summary line.\n\n    Extended\n    description.\n\n    Parameters\n    ----------\n    a : array-like of shape (n_samples, n_features)\n        The a.\n    b : {\'x\', \'y\'} or None, default=None\n        The b.\n\n    Other Parameters\n    ----------------\n    **kwargs : dict\n        Extra.\n\n    Returns\n    -------\n    out : ndarray of shape (n,)\n        The out.\n    extra : int, optional\n        Another.\n\n    Yields\n    ------\n    int\n        Numbers.\n\n    Raises\n    ------\n    ValueError\n        If bad.\n\n    See Also\n    --------\n    g : Other.\n\n    Notes\n    -----\n    Some :math:`x^2`.\n\n    References\n    ----------\n    .. [1] Ref.\n\n    Examples\n    --------\n    >>> f(1)\n    2\n    >>> f(\n    ...     3)\n    4\n    """\n    return a\n',
+ 'google_sections': 'def f(a, b=1):\n    """Summary line.\n\n    Args:\n        a (int, optional): The a.\n            Continued.\n        b (Dict[str, List[int]]): The b.\n        *args: Var.\n        **kwargs: Kw.\n\n    Returns:\n        Tuple[int, str]: A pair.\n\n    Yields:\n        int: N.\n\n    Raises:\n        ValueError: If bad.\n\n    Note:\n        A note.\n\n    Example:\n        >>> f(1)\n        2\n\n    Todo:\n        * x\n    """\n    return a\n\nclass A:\n    """Class.\n\n    Attributes:\n        x (int): The x.\n        y: The y.\n    """\n    x = 1\n    y = 2\n',
+ 'rest_sections': 'def f(a, b=1):\n    """Summary line.\n\n    :param a: The a.\n    :type a: int or None\n    :param str b: The b, typed inline.\n    :keyword c: Keyword.\n    :raises ValueError: If bad.\n    :returns: The result.\n    :rtype: list(int)\n    :var x: A var.\n    :meta private:\n\n    .. note:: A note.\n\n    .. code-block:: python\n\n        f(1)\n    """\n    return a\n\nclass A:\n    """Class.\n\n    :ivar x: The x.\n    :vartype x: int\n    :cvar y: The y.\n    """\n    x = 1\n    y = 2\n',
+ 'nested_defs': "class Outer:\n    class Mid:\n        class Inner:\n            def m(self) -> 'Outer.Mid.Inner':\n                return self\n        def mk(self) -> 'Outer.Mid.Inner':\n            return Outer.Mid.Inner()\n    def method(self):\n        class Local:\n            pass\n        def helper(x: int) -> int:\n            return x\n        return Local, helper\n\ndef outer_fn():\n    def inner_fn():\n        class InFn:\n            attr = 1\n        return InFn\n    return inner_fn\n",
+ 'all_as_tuple': "__all__ = ('f', 'A')\n\ndef f() -> None: ...\nclass A: ...\n",
+ 'property_variants': 'class A:\n    def _get(self) -> int:\n        return 1\n    def _set(self, v: int) -> None:\n        pass\n    p = property(_get, _set, doc=\'The p.\')\n\n    @property\n    def q(self) -> int:\n        """The q."""\n        return 1\n\n    @q.setter\n    def q(self, v: int) -> None:\n        pass\n\n    @q.deleter\n    def q(self) -> None:\n        pass\n',
+ 'exceptions_and_inheritance': "class MyError(Exception):\n    def __init__(self, msg: str, code: int = 0) -> None:\n        super().__init__(msg)\n        self.code = code\n\nclass Multi(dict, MyError if False else object):\n    pass\n\nclass FromBuiltin(list[int]):\n    def total(self) -> int:\n        return sum(self)\n\nclass WithGenericBase(dict[str, 'WithGenericBase']):\n    pass\n",
+})
+
 OTHER = "def g() -> int:\n    return 1\n\n\nclass K:\n    pass\n"
 
 
